@@ -10,6 +10,8 @@ the trie storage `sg` and the link storage `sgl`; the RAM rules `rm` are read-on
     generator is consumed inside add_links: None for the whole request;
   * `store = self.link_store`; `store.add_outlinks(node, blocks)` / `add_inlinks` are LinkStore.add_links with out=True / False
     (their bodies are checked textually), on the link storage, the node being rewritten in the trie storage.
+  * ALIASING: `pages` holds references to node objects, the translation copies of their values; the translator checks that a
+    recorded object is only ever used through `.block` (never changed by any method) or after a `refresh()` that re-reads it.
 GenTraphKFacts.v proves the translated add_links equal to the model's Traph.add_links on every reachable state (C03)."""
 import ast
 import os
@@ -84,6 +86,15 @@ class FnK(GP.FnP):
                         and v.args[0].id == n and env.get(n) == "bytes":
                     return nxt()
                 if isinstance(v, ast.Subscript) and isinstance(v.value, ast.Name) and env.get(v.value.id) == "ndict2":
+                    # ALIASING: Python's dict holds a reference to the node object, the translation a copy of its value.  The copy is
+                    # faithful only if what is read from the recorded object cannot have changed since it was recorded: accepted
+                    # when the very next statement re-reads the object from the file (`<name>.refresh()`), or tests
+                    # `<name>.is_crawled()` and refreshes inside (index_batch_crawl: the key is a source met for the first time as
+                    # a source - the keys of `data` are distinct - so the recorded object has not been touched since __add_page
+                    # returned it); elsewhere only `.block` of a recorded object is read, which no method changes
+                    nx = ast.unparse(rest[0]) if rest else ""
+                    if not (nx == "%s.refresh()" % n or nx.startswith("if not %s.is_crawled():\n    %s.refresh()" % (n, n))):
+                        raise Unsupported("use of the recorded node object %s without refresh" % n)
                     kx, tk = self.expr(v.slice, env)
                     return "(match py_dict_get %s v_%s with\n | None => %s\n | Some v_%s => %s end)" % (kx, v.value.id, self.fail(), n, nxt(dict(env, **{n: "tnode"})))
                 if isinstance(v, ast.GeneratorExp) and len(v.generators) == 1 and not v.generators[0].ifs \
